@@ -103,6 +103,12 @@ def gen_history(rng: random.Random, W: int, length: int):
     for _ in range(length):
         path = rng.choice(PATHS) if rng.random() < 0.5 else PATHS[0]
         spec = cl.rand_workload(rng, W)
+        if rounds and rng.random() < 0.5:
+            # a retry / periodic re-save of the *same* state to the *same* path (identical manifest when nothing is
+            # slab-batched): barrier keys must still be fresh per attempt, not per content
+            path = rounds[-1]["path"]
+            spec = dict(rounds[-1]["spec"], nobatch=True)
+            rounds[-1]["spec"] = dict(rounds[-1]["spec"], nobatch=True)
         faults = rand_fault(rng, W, spec)
         rd = {"mode": "async", "path": path, "spec": spec, "faults": faults, "chooser": rand_chooser(rng, W)}
         rounds.append(rd)       # (a committed snapshot at `path` is deleted first: see run_case)
